@@ -196,7 +196,8 @@ class CallMixin:
         return [(st, vbool(f(self.to_ref(st, args[0]), self.to_ref(st, args[1]))))]
 
     def b_callable(self, ex, st, node, args, kwargs):
-        raise Unsupported("callable()")
+        f = z3.Function("builtin_callable", I, B)  # a pure predicate of the object
+        return [(st, vbool(f(self.to_ref(st, args[0]))))]
 
     def b_type(self, ex, st, node, args, kwargs):
         return [(st, V("ref", st.get("attr:__class__", self.to_ref(st, args[0])), "class"))]
